@@ -493,7 +493,10 @@ def records_for(inst, seed=0):
         with np.errstate(all="ignore"):
             cond = float(np.linalg.cond(fh)) if fh.size else float("inf")
         if np.isfinite(cond) and cond < 1e6:
-            big = max(1e-30, float(np.abs(sm).max()), float(np.abs(mm).max()))
+            # reconstructions in the units of the integer mapping matrices; the floor keeps float noise of an exactly
+            # vanishing solution (D = 0 on the lattice) from being magnified
+            sm, sw = sm / cs, sw / cs
+            big = max(1e-6 * sv, float(np.abs(sm).max()), float(np.abs(mm).max()))
             g = 10.0 ** 7 / big
 
             def fl(a):
@@ -676,18 +679,25 @@ def run(ctx):
     rnd = random_instances(rng, n_random)
     work = all_insts + rnd
     batch = 6
-    outs = core.pmap(_many, [(work[k: k + batch], ctx.seed) for k in range(0, len(work), batch)])
-    recs = [r for o in outs for r in o]
-    for r in recs:
-        if r["api"] == "inv" and not r["raised"] and len(ctx.samples) < 3 and r["form"] == "mapping":
-            ctx.sample({"record": {k: v for k, v in r.items() if k not in ("_inst", "wgiven")}})
-            break
     kinds = {}
-    for r in recs:
-        key = r["api"] if r["api"] != "inv" else f"inv:{r['form']}:{r['route']}:{r['tables']}"
-        kinds[key] = kinds.get(key, 0) + 1
-    validate(ctx, recs, "X10")
-    ctx.note(f"{len(all_insts)} enumerated + {len(rnd)} random instances -> {len(recs)} records judged by Trace_VisNormalEq: {kinds}")
+    total = 0
+    step = 3000     # instances replayed and judged at a time (bounds the memory of the thorough tier)
+    for k0 in range(0, len(work), step):
+        part = work[k0: k0 + step]
+        outs = core.pmap(_many, [(part[k: k + batch], ctx.seed) for k in range(0, len(part), batch)])
+        recs = [r for o in outs for r in o]
+        del outs
+        for r in recs:
+            if r["api"] == "inv" and not r["raised"] and len(ctx.samples) < 2 and r["form"] == "mapping":
+                ctx.sample({"record": {k: v for k, v in r.items() if k not in ("_inst", "wgiven")}})
+                break
+        for r in recs:
+            key = r["api"] if r["api"] != "inv" else f"inv:{r['form']}:{r['route']}:{r['tables']}"
+            kinds[key] = kinds.get(key, 0) + 1
+        total += len(recs)
+        validate(ctx, recs, f"X10-{k0}")
+        del recs
+    ctx.note(f"{len(all_insts)} enumerated + {len(rnd)} random instances -> {total} records judged by Trace_VisNormalEq: {kinds}")
     ctx.assumptions = [
         "baselines are a*648000/(4*s*pi) for the (isotropic) pixel scale s, so every phase is a quarter turn up to ~1e-15; alpha accepts a "
         "residual of 1e-9 lattice units and rejects anything else (values-on-lattice clause)",
